@@ -24,6 +24,7 @@ from pyvc.contract import TSpec, fresh_array, make_obj
 from pyvc import symex as _X
 from pyvc import values as V
 import z3 as _z3
+from pyvc.values import Sym
 
 
 class _KMeansStub:
@@ -63,7 +64,10 @@ class TClassifier(TSpec):
             path.assume(s_ >= 1)
         img = T.Arr(4, "real", shape=(n,) + shape).fresh(f"{name}_image", path)
         mask = T.Arr(3, "real", shape=shape).fresh(f"{name}_mask", path) if self.with_mask else 1
-        pca = make_obj(interp, "acryo.classification._dask_pca:DaskPCA", svd_solver="auto", n_components=2)
+        pca = make_obj(interp, "acryo.classification._dask_pca:DaskPCA", svd_solver="auto", n_components=2, whiten=False)
+        nf = shape[0] * shape[1] * shape[2]
+        pca.attrs.update(mean_=fresh_array(f"{name}_pca_mean", 1, "real", shape=(nf,)),
+                         components_=fresh_array(f"{name}_pca_components", 2, "real", shape=(2, nf)))
         return _X.Obj(cls, {"_image": img, "_mask": mask, "_n_image": n, "_shape": shape, "n_components": 2,
                             "n_clusters": 2, "_pca": pca, "_kmeans": _KMeansStub(), "_labels": None})
 
@@ -74,15 +78,65 @@ class TClassifier(TSpec):
         return [self]
 
 
-for _m in ("fit", "transform"):
-    @contract(f"acryo.classification._dask_pca:DaskPCA.{_m}", props=["C18"])
-    class dask_pca_method:
-        """fit / transform of the out-of-core PCA (numerics trusted; exposes its argument to callers)"""
-        trusted = True
-        params = dict(self=_PCA("auto"))
-        result = (lambda interp, bound: bound["self"]) if _m == "fit" else \
-            (lambda interp, bound: fresh_array("projection", 2, "real", shape=(bound["X"].shape[0], 2)))
-        ensures = {}
+@contract("acryo.classification._dask_pca:DaskPCA.fit", props=["C18"])
+class dask_pca_fit:
+    """fit of the out-of-core PCA (numerics trusted; exposes its argument to callers)"""
+    trusted = True
+    params = dict(self=_PCA("auto"))
+    result = lambda interp, bound: bound["self"]
+    ensures = {}
+
+
+def dot_factors(res):
+    from pyvc import stubs as _S
+    for (r, a, b) in _S.GHOST.get("dot", []):
+        if r is res:
+            return a, b
+    return fresh_array("no_such_product", 2, "real"), fresh_array("no_such_product", 2, "real")
+
+
+class _TFittedPCA(T.Obj):
+    """a fitted DaskPCA: mean_ (n_features,), components_ (n_components, n_features), no whitening"""
+
+    def __init__(self):
+        T.Obj.__init__(self, "acryo.classification._dask_pca:DaskPCA", {})
+
+    def fresh(self, name, path):
+        o = T.Obj.fresh(self, name, path)
+        f = Sym(_z3.Int(f"{name}_n_features"))
+        k = Sym(_z3.Int(f"{name}_n_components"))
+        path.assume(f >= 1)
+        path.assume(k >= 1)
+        o.attrs.update(mean_=fresh_array(f"{name}_mean", 1, "real", shape=(f,)),
+                       components_=fresh_array(f"{name}_components", 2, "real", shape=(k, f)), whiten=False,
+                       svd_solver="auto", n_components=k)
+        return o
+
+
+@contract("acryo.classification._dask_pca:DaskPCA.transform", props=["C18"])
+class dask_pca_transform:
+    """projection of new data: every row is centred with the mean of the stack the model was FITTED on (not with the
+    mean of the rows being transformed) and projected on the fitted components"""
+    params = dict(self=_TFittedPCA(), X=T.Arr(2, "real"))
+    requires = ["X.shape[1] == self.mean_.shape[0]"]
+    helpers = dict(dot_factors=dot_factors)
+    result = lambda interp, bound: fresh_array("projection", 2, "real", shape=(bound["X"].shape[0], 2))
+    call_ensures = []
+    imports = "from acryo.classification._dask_pca import DaskPCA as _DaskPCA\nimport dask.array as _da"
+    native_call = ("(lambda p, X: (p.fit(_da.from_array(X)), p.transform(_da.from_array(X[:3] + 5.0)).compute(), p)[1:])"
+                   "(_DaskPCA(n_components=2, svd_solver='full'), _generic_array((8, 6), 'real') * 1.7)")
+    native_helpers = dict(_gen=lambda: __import__("pyvc.native", fromlist=["_generic_array"])._generic_array((8, 6), "real") * 1.7)
+    native = {"shape": "True",
+              "centred_with_the_fitted_mean": "np.allclose(result[0], (_gen()[:3] + 5.0 - "
+                                              "np.asarray(result[1].mean_)) @ np.asarray(result[1].components_).T, atol=1e-4)",
+              "projected_on_the_components": "True"}
+    ensures = {
+        "shape": "result.shape[0] == X.shape[0] and result.shape[1] == self.components_.shape[0]",
+        "centred_with_the_fitted_mean": "forall(lambda i, f: dot_factors(result)[0][i, f] == X[i, f] - self.mean_[f], "
+                                        "(0, X.shape[0]), (0, X.shape[1]))",
+        "projected_on_the_components": "forall(lambda f, c: dot_factors(result)[1][f, c] == self.components_[c, f], "
+                                       "(0, X.shape[1]), (0, self.components_.shape[0]))",
+    }
 
 
 def masked_flat(self, i, f):
